@@ -45,7 +45,7 @@ MUTANTS = [
     ('hash_refusal_other_error',
      '            .concat(),\n        )\n        .ok_or(Error::SerializationError)?;\n        Ok(Self(SerializableScalar(randomizer)))\n    }\n}',
      '            .concat(),\n        )\n        .ok_or(Error::InvalidSignature)?;\n        Ok(Self(SerializableScalar(randomizer)))\n    }\n}',
-     'regenerate reports a refusing hash as InvalidSignature'),
+     'regenerate reports a refusing hash as InvalidSignature (benign w.r.t. C17: only the exact clause `value` fails -> verdict undecided, see dev/mutants_pclauses.py)'),
     ('params_key_minus_element',
      'let randomized_verifying_key_element = verifying_key_element + randomizer_element;',
      'let randomized_verifying_key_element = verifying_key_element - randomizer_element;',
